@@ -11,6 +11,8 @@ pub enum Host {
     Rb,
     Js,
     Toml,
+    /// shell file with CRLF line terminators
+    ShCrlf,
 }
 
 impl Host {
@@ -21,6 +23,7 @@ impl Host {
             Host::Rb => "batch.rb",
             Host::Js => "batch.js",
             Host::Toml => "batch.toml",
+            Host::ShCrlf => "batch_crlf.sh",
         }
     }
     pub fn open(self) -> &'static str {
@@ -85,7 +88,7 @@ pub fn render_batch(host: Host, blocks: &[RuleBlock]) -> Rendered {
     let mut text = String::new();
     let mut line = 1usize;
     let mut pos = Vec::with_capacity(blocks.len());
-    if host == Host::Sh {
+    if host == Host::Sh || host == Host::ShCrlf {
         text.push_str("#!/bin/sh\n");
         line += 1;
     }
@@ -114,6 +117,9 @@ pub fn render_batch(host: Host, blocks: &[RuleBlock]) -> Rendered {
             text.push_str(&format!("{}<block name=\"plain{}\" note=\"no rules\">\nb\na\na\nB 1\n{}</block>\n\n", host.open(), pos.len(), host.open()));
             line += 7;
         }
+    }
+    if host == Host::ShCrlf {
+        text = text.replace('\n', "\r\n");
     }
     Rendered { text, pos }
 }
